@@ -41,6 +41,16 @@ def run_one(name, tier):
         res['wall_s'] = round(time.time() - t0, 1)
         res['caught'] = (rc == 1 and any(l.startswith('VIOLATION property=' + prop) for l in res['check_lines']))
         res['with_failing_input'] = res['caught'] and any('no-failing-input-found' not in l for l in res['check_lines'] if l.startswith('VIOLATION'))
+        # a seed may also be visible to a neighbouring property's check (recorded by us in also_run.json)
+        also_file = os.path.join(d, 'also_run.json')
+        res['caught_by'] = [prop] if res['caught'] else []
+        if os.path.exists(also_file):
+            for q in json.load(open(also_file)):
+                rc2, out2 = sh(['./check', q, '--tier', tier], cwd=here, env=env2)
+                hit = rc2 == 1 and ('VIOLATION property=' + q) in out2
+                res.setdefault('also', {})[q] = {'exit': rc2, 'caught': hit}
+                if hit:
+                    res['caught_by'].append(q)
         rp = [l.split('replay=')[1].split()[0] for l in res['check_lines'] if l.startswith('VIOLATION')]
         if rp and os.path.exists(os.path.join(here, rp[0])):
             res['replay_excerpt'] = open(os.path.join(here, rp[0])).read()[:1500]
@@ -64,12 +74,12 @@ def main():
         print(n, 'caught' if r.get('caught') else 'MISSED', r.get('check_lines', r.get('error')))
         rows.append(r)
     # summary over all result files
-    lines = ['# Seeded defects vs. checks', '', '| seed | property | demo clean/patched | check exit | caught | failing input found |', '|---|---|---|---|---|---|']
+    lines = ['# Seeded defects vs. checks', '', '| seed | property | demo clean/patched | check exit | caught by own check | failing input found | caught by |', '|---|---|---|---|---|---|---|']
     for n in sorted(os.listdir(seeded)):
         f = os.path.join(seeded, n, 'result.json')
         if os.path.exists(f):
             r = json.load(open(f))
-            lines.append('| %s | %s | %s/%s | %s | %s | %s |' % (n, r['property'], r.get('demo_clean_exit'), r.get('demo_patched_exit'), r.get('check_exit'), r.get('caught'), r.get('with_failing_input')))
+            lines.append('| %s | %s | %s/%s | %s | %s | %s | %s |' % (n, r['property'], r.get('demo_clean_exit'), r.get('demo_patched_exit'), r.get('check_exit'), r.get('caught'), r.get('with_failing_input'), ','.join(r.get('caught_by', []))))
     open(os.path.join(seeded, 'RESULTS.md'), 'w').write('\n'.join(lines) + '\n')
 
 if __name__ == '__main__':
